@@ -1,13 +1,158 @@
 /-
-C20 — file transfer through the file-service plugin (placeholder; theorems follow).
+C20 — file transfer through the file-service plugin is byte-exact and checksummed.
+
+Model: Iec.FileSrv (file_server.c: handleAsdu + runTask over decoded requests, application side
+as explicit environment), byte layer Iec.FileSrvBytes; tie: checks/c20.py (differential of the
+real plugin against the model after every operation + model-free oracles).
+
+Decided here, for files of 1..254 non-empty sections of ANY sizes, ANY segment size >= 1, ANY
+number of negative section acknowledgements per section, from ANY idle server state (whatever an
+earlier, possibly abandoned transfer left in the other fields):
+
+* `download_procedure`      the complete reply trace of the server to a procedure-following master
+* `download_receives_file`  the master reassembles exactly the octets of the file
+* `download_segments_fit`   no segment is longer than the segment size; `segment_asdu_fits`: with the
+                            segment size of FileSegment_GetMaxDataSize the ASDU fits maxSizeOfASDU
+* `download_section_checksums`, `download_file_checksum`   LAST SEGMENT / LAST SECTION carry the
+                            modulo-256 sums of the section / the file, also after repeated sections
+* `download_provider_told`  the provider is told success, once, at the end
+
+Hypotheses that the statement of C20 does not make and that the proof needs — both recorded in
+DESIGN.md: sections are non-empty and there is at least one (an EMPTY file is announced as an
+empty section 1 and the procedure cannot complete: observation, not claimed); at most 254 sections
+(the section name is one octet).
 -/
-import Iec.Model.FileSrvBytes
+import Iec.Lemmas.FileSrv
 namespace Iec.Props.C20
 open Iec.FileSrv
 
-/-- a request with a type id outside 120..127 is not handled by the plugin -/
-theorem not_file_service (e : Env) (s : Srv) (conn now : Nat) (r : Req) (h : r.tid < 120 ∨ r.tid > 127) :
-    handleAsdu e s conn now r = none := by
-  simp [handleAsdu, h]
+/-- the sections of the file with the number of negative acknowledgements the master gives to each -/
+abbrev Plan := List (List Nat × Nat)
+
+/-- `plan` describes the file offered by `e`: 1..254 non-empty sections -/
+structure PlanFor (e : Env) (plan : Plan) : Prop where
+  file : plan.map Prod.fst = e.file
+  nonempty : plan ≠ []
+  sections : ∀ p ∈ plan, p.1 ≠ []
+  count : plan.length ≤ 254
+
+/-- **C20, download.** The server's replies to a master that follows select / call file / call section /
+acknowledge, with any number of negative section acknowledgements, are exactly `downloadOut`: FILE READY with
+the file length, per section SECTION READY with the section length, per pass the section cut into segments
+followed by LAST SEGMENT, after the last section LAST SECTION, and `transferComplete(true)` at the positive
+file acknowledgement.  Holds from every idle state. -/
+theorem download_procedure (e : Env) (s0 : Srv) (conn now oa : Nat) (plan : Plan)
+    (hf : e.hasFiles = true) (hp : PlanFor e plan) (hst : s0.st = .idle) (hseg : 0 < s0.maxSeg) :
+    ∃ s', run e s0 (downloadOps e conn now oa s0.maxSeg plan) = (s', downloadOut e conn s0.oa oa s0.maxSeg plan) ∧
+      s'.st = .idle ∧ s'.selected = false := by
+  obtain ⟨file, nonempty, sections, count⟩ := hp
+  cases plan with
+  | nil => exact absurd rfl nonempty
+  | cons p tl =>
+    obtain ⟨sec, k⟩ := p
+    exact download_run e s0 conn now oa sec k tl hf file sections (by simpa using count) hst hseg
+
+/-- **C20, byte-exact.** What a procedure-following master holds at the end (octets of every accepted pass,
+repeated passes discarded) is the file. -/
+theorem download_receives_file (e : Env) (s0 : Srv) (conn now oa : Nat) (plan : Plan)
+    (hf : e.hasFiles = true) (hp : PlanFor e plan) (hst : s0.st = .idle) (hseg : 0 < s0.maxSeg) :
+    received (run e s0 (downloadOps e conn now oa s0.maxSeg plan)).2 = e.file.flatten := by
+  obtain ⟨s', h, _, _⟩ := download_procedure e s0 conn now oa plan hf hp hst hseg
+  rw [h]
+  cases plan with
+  | nil => exact absurd rfl hp.nonempty
+  | cons p tl => exact received_download e conn s0.oa oa s0.maxSeg hseg p tl hp.file
+
+/-- every message of the download trace is one of these -/
+theorem downloadOut_mem (e : Env) (conn soa oa m : Nat) (plan : Plan) (o : Out) (ho : o ∈ downloadOut e conn soa oa m plan) :
+    o = Out.getFile e.fca e.fioa e.fnof ∨ o = Out.complete true ∨
+    (∃ lof, o = Out.send conn oa e.fca e.fioa e.fnof (.fileReady lof true)) ∨
+    (∃ j d, o = Out.send conn soa e.fca e.fioa e.fnof (.segment j d) ∧ d.length ≤ m) ∨
+    (∃ i, ∃ h : i < plan.length, o = Out.send conn soa e.fca e.fioa e.fnof (.lastSegment (1 + i) (chk plan[i].1))) ∨
+    (∃ j l, o = Out.send conn oa e.fca e.fioa e.fnof (.sectionReady j l)) ∨
+    (∃ j c', o = Out.send conn oa e.fca e.fioa e.fnof (.lastSection j c')) := by
+  unfold downloadOut at ho
+  simp only [List.mem_cons, List.mem_append, List.mem_nil_iff, or_false] at ho
+  rcases ho with h | h | h | h | h
+  · exact Or.inl h
+  · exact Or.inr (Or.inr (Or.inl ⟨_, h⟩))
+  · exact Or.inr (Or.inr (Or.inr (Or.inr (Or.inr (Or.inl ⟨_, _, h⟩)))))
+  · rcases secOut_mem e conn soa oa m plan 1 0 o h with h' | h' | ⟨i, hi, h'⟩ | h'
+    · exact Or.inr (Or.inr (Or.inr (Or.inl h')))
+    · exact Or.inr (Or.inr (Or.inr (Or.inr (Or.inl h'))))
+    · exact Or.inr (Or.inr (Or.inr (Or.inr (Or.inr (Or.inl ⟨_, _, h'⟩)))))
+    · exact Or.inr (Or.inr (Or.inr (Or.inr (Or.inr (Or.inr h')))))
+  · exact Or.inr (Or.inl h)
+
+/-- **C20, segment size.** No segment sent during the download carries more than `maxSeg` octets. -/
+theorem download_segments_fit (e : Env) (s0 : Srv) (conn now oa : Nat) (plan : Plan)
+    (hf : e.hasFiles = true) (hp : PlanFor e plan) (hst : s0.st = .idle) (hseg : 0 < s0.maxSeg)
+    (c o' ca ioa nof j : Nat) (d : List Nat)
+    (hm : Out.send c o' ca ioa nof (.segment j d) ∈ (run e s0 (downloadOps e conn now oa s0.maxSeg plan)).2) :
+    d.length ≤ s0.maxSeg := by
+  obtain ⟨s', h, _, _⟩ := download_procedure e s0 conn now oa plan hf hp hst hseg
+  rw [h] at hm
+  rcases downloadOut_mem e conn s0.oa oa s0.maxSeg plan _ hm with h | h | ⟨_, h⟩ | ⟨j', d', h, hl⟩ | ⟨_, _, h⟩ | ⟨_, _, h⟩ | ⟨_, _, h⟩
+  all_goals first
+    | (cases h; done)
+    | (injection h with _ _ _ _ _ h6; injection h6 with _ h8; subst h8; exact hl)
+
+/-- **C20, section checksums.** Every LAST SEGMENT of the download names a section of the file and carries
+the modulo-256 sum of that section's octets — in the first pass and in every repeated pass. -/
+theorem download_section_checksums (e : Env) (s0 : Srv) (conn now oa : Nat) (plan : Plan)
+    (hf : e.hasFiles = true) (hp : PlanFor e plan) (hst : s0.st = .idle) (hseg : 0 < s0.maxSeg)
+    (c o' ca ioa nof j chs : Nat)
+    (hm : Out.send c o' ca ioa nof (.lastSegment j chs) ∈ (run e s0 (downloadOps e conn now oa s0.maxSeg plan)).2) :
+    ∃ sec, e.file[j - 1]? = some sec ∧ 1 ≤ j ∧ chs = sec.sum % 256 := by
+  obtain ⟨s', h, _, _⟩ := download_procedure e s0 conn now oa plan hf hp hst hseg
+  rw [h] at hm
+  rcases downloadOut_mem e conn s0.oa oa s0.maxSeg plan _ hm with h | h | ⟨_, h⟩ | ⟨_, _, h, _⟩ | ⟨i, hi, h⟩ | ⟨_, _, h⟩ | ⟨_, _, h⟩
+  all_goals first
+    | (cases h; done)
+    | (injection h with _ _ _ _ _ h6
+       injection h6 with h7 h8
+       subst h7 h8
+       refine ⟨plan[i].1, ?_, by omega, rfl⟩
+       rw [← hp.file]
+       simp [hi])
+
+/-- **C20, file checksum.** The download trace ends with LAST SECTION carrying the modulo-256 sum of all
+octets of the file, followed only by the report to the provider — whatever sections were repeated. -/
+theorem download_file_checksum (e : Env) (s0 : Srv) (conn now oa : Nat) (plan : Plan)
+    (hf : e.hasFiles = true) (hp : PlanFor e plan) (hst : s0.st = .idle) (hseg : 0 < s0.maxSeg) :
+    ∃ pre, (run e s0 (downloadOps e conn now oa s0.maxSeg plan)).2 = pre ++
+      [Out.send conn oa e.fca e.fioa e.fnof (.lastSection (1 + plan.length) (e.file.flatten.sum % 256)), Out.complete true] := by
+  obtain ⟨s', h, _, _⟩ := download_procedure e s0 conn now oa plan hf hp hst hseg
+  rw [h]
+  obtain ⟨pre, hpre⟩ := secOut_last e conn s0.oa oa s0.maxSeg plan 1 0 hp.nonempty (by omega)
+  refine ⟨Out.getFile e.fca e.fioa e.fnof :: Out.send conn oa e.fca e.fioa e.fnof (.fileReady (fileSize e.file) true) ::
+    Out.send conn oa e.fca e.fioa e.fnof (.sectionReady 1 ((plan.map Prod.fst).headD []).length) :: pre, ?_⟩
+  unfold downloadOut
+  rw [hpre, hp.file]
+  simp [chk, List.append_assoc]
+
+/-- **C20, outcome.** The provider is told the outcome: success, exactly once, as the last event. -/
+theorem download_provider_told (e : Env) (s0 : Srv) (conn now oa : Nat) (plan : Plan)
+    (hf : e.hasFiles = true) (hp : PlanFor e plan) (hst : s0.st = .idle) (hseg : 0 < s0.maxSeg) :
+    ((run e s0 (downloadOps e conn now oa s0.maxSeg plan)).2.filter (fun o => o matches .complete _)) = [Out.complete true] := by
+  obtain ⟨s', h, _, _⟩ := download_procedure e s0 conn now oa plan hf hp hst hseg
+  rw [h]
+  have hnone : ∀ o ∈ secOut e conn s0.oa oa s0.maxSeg 1 0 plan, (o matches .complete _) = false := by
+    intro o ho
+    rcases secOut_mem e conn s0.oa oa s0.maxSeg plan 1 0 o ho with ⟨_, _, h, _⟩ | ⟨_, _, h⟩ | ⟨_, _, h⟩ | ⟨_, _, h⟩ <;> rw [h]
+  unfold downloadOut
+  simp only [List.filter_cons, List.filter_append]
+  rw [List.filter_eq_nil_iff.mpr (by intro o ho; simp [hnone o ho])]
+  simp
+
+/-! non-vacuity: a two-section file, segment size 3, one negative acknowledgement for section 1, from an idle
+state that still carries the checksum of an abandoned transfer -/
+def exEnv : Env := { file := [[1, 2, 3, 4, 250], [9]], fca := 5, fioa := 100, fnof := 2, hasFiles := true, hasReady := false,
+                     accept := false, readyErr := 0 }
+def exPlan : Plan := [([1, 2, 3, 4, 250], 1), ([9], 0)]
+example : PlanFor exEnv exPlan := ⟨rfl, by decide, by decide, by decide⟩
+example : (run exEnv { maxSeg := 3, secChk := 77, fileChk := 13 } (downloadOps exEnv 0 0 7 3 exPlan)).2 =
+    downloadOut exEnv 0 0 7 3 exPlan := by decide
+example : received (downloadOut exEnv 0 0 7 3 exPlan) = [1, 2, 3, 4, 250, 9] := by decide
 
 end Iec.Props.C20
